@@ -1,8 +1,17 @@
 package bits
 
 import (
+	"errors"
 	"io"
 )
+
+// ErrExpGolombRange is the accumulated error after WriteExpGolomb was called with a value that cannot be coded.
+var ErrExpGolombRange = errors.New("value too large for exp-golomb coding")
+
+// maxExpGolomb is the largest value WriteExpGolomb can code: the prefix of a larger value is longer
+// than 57 bits and does not fit the 64-bit accumulator beside up to 7 pending bits
+// (earlier bits were silently dropped, and the prefix loop did not terminate for the maximal uint).
+const maxExpGolomb = uint64(1)<<57 - 2
 
 // EBSPWriter write bits and insert start-code emulation prevention bytes as necessary.
 // Ceases writing at first error.
@@ -63,6 +72,12 @@ func (w *EBSPWriter) Write(bits uint, n int) {
 
 // WriteExpGolomb - write an exponential Golomb code
 func (w *EBSPWriter) WriteExpGolomb(nr uint) {
+	if uint64(nr) > maxExpGolomb {
+		if w.err == nil {
+			w.err = ErrExpGolombRange
+		}
+		return
+	}
 	offset := uint(0)
 	prefixLen := uint(0)
 	delta := uint(0)
